@@ -22,7 +22,7 @@ import (
 func init() {
 	core.Register(&core.Property{
 		ID:   "C14",
-		Rule: "strings over {a, B, é(2-byte), €(3-byte), 😀(4-byte), U+0301 combining, space, quote}: exhaustive up to length 4 (quick: 3 over 6 symbols) plus seeded random up to length 12; for each: length, toChars, upper, lower; substring for all start in [-2,len+2] x length in {omitted,-1..len+2, MaxInt32, MinInt32}; indexOf/startsWith/endsWith/contains/replace for all substrings, near-misses and ''; receivers as System strings, FHIR string/code/id/markdown/uri elements and literals; compared with a rune-based reference; all returned strings checked for valid UTF-8; the four laws of the statement. distinct_nontrivial = distinct (function, string, arguments) cases with a non-ASCII receiver or pattern",
+		Rule: "strings over {a, B, é(2-byte), €(3-byte), 😀(4-byte), U+0301 combining, space, quote}: exhaustive up to length 4 (quick: 3 over 6 symbols) plus seeded random up to length 12; for each: length, toChars, upper, lower; substring for all start in [-2,len+2] x length in {omitted,-1..len+2, MaxInt32, MinInt32}; indexOf/startsWith/endsWith/contains/replace for all substrings, near-misses and ''; receivers as System strings, FHIR string/code/id/markdown/uri elements and literals; compared with a rune-based reference; all returned strings checked for valid UTF-8; the four laws of the statement. xhtml carrier, U+FFFD / regex metacharacters / $-templates in the alphabets, the receiver read several times through one carrier; distinct_nontrivial = distinct (function, string, arguments) cases with a non-ASCII receiver or pattern",
 		Assumptions: []string{"a negative substring length is not constrained beyond totality and UTF-8 validity; length 0 may be '' or empty",
 			"upper/lower are compared with per-rune Unicode simple case mapping"},
 		Run:    runC14,
